@@ -175,6 +175,13 @@ def rewrite_all_references(
     all_known = set(known_components).union(looped_ids)
     _ = FlowIR.discover_reference_strings(value, owner_component_stage, all_known, out_map)
 
+    # VV: Compute all rewrites first and apply them in a single pass over the *original* text. Substituting one
+    # reference at a time re-scans text that has already been rewritten: the value of a binding may be textually
+    # identical to (or contain) another reference of the same string (e.g. binding "stage0.src:output" next to the
+    # looped component "stage0.src:output", or "x-a:output" next to "a:output"). References that are not rewritten
+    # map to themselves so that no shorter reference is matched inside them.
+    rewrites = {match: match for match in out_map}
+
     for match in out_map:
         rewrite = rewrite_reference(out_map[match], binding_values, import_to_stage, owner_component_stage)
 
@@ -198,12 +205,16 @@ def rewrite_all_references(
                     match, rewrite, value
                 ))
 
-        pattern = r'\b' + re.escape(match) + r'\b'
+        rewrites[match] = rewrite
+
+    if rewrites:
+        # VV: longest reference first so that "x-a:output" is not mistaken for "a:output"
+        pattern = r'\b(' + '|'.join(re.escape(m) for m in sorted(rewrites, key=len, reverse=True)) + r')\b'
 
         try:
-            value = re.sub(pattern, rewrite, value, 1)
+            value = re.sub(pattern, lambda m: rewrites[m.group(1)], value)
         except Exception:
-            flowirLogger.critical("Failed to res.sub(\"%s\", \"%s\", \"%s\"" % (pattern, rewrite, value))
+            flowirLogger.critical("Failed to res.sub(\"%s\", \"%s\", \"%s\"" % (pattern, rewrites, value))
             raise
 
     return value
